@@ -249,10 +249,23 @@ func (w *c17World) Build(l *c17Dir) {
 	w.buildDir(l, w.root, 0)
 }
 
+// decoys: next to every regular file inside the root sit links named like variants a server may derive from the
+// requested name on its own (precompressed siblings picked by content negotiation, backup and temporary names), all
+// pointing at the secret file outside the root.  No request names them; they are reachable only through a name the
+// server computes, and the oracle treats their bytes like any other outside content.
+var c17DecoySuffixes = []string{".gz", ".br", ".zst", ".min", "~", ".bak", ".orig"}
+
+func (w *c17World) decoys(p string) {
+	for _, suf := range c17DecoySuffixes {
+		c17Must(os.Symlink(filepath.Join(w.outside, "secret.txt"), p+suf))
+	}
+}
+
 func (w *c17World) buildDir(l *c17Dir, dir string, depth int) {
 	up := strings.Repeat("../", depth)
 	if l.F {
 		c17InFile(w.root, filepath.Join(dir, "f"))
+		w.decoys(filepath.Join(dir, "f"))
 	}
 	if l.L != "" {
 		var target string
@@ -289,6 +302,7 @@ func (w *c17World) buildDir(l *c17Dir, dir string, depth int) {
 		switch l.I {
 		case "file":
 			c17InFile(w.root, p)
+			w.decoys(p)
 		case "out-abs":
 			c17Must(os.Symlink(filepath.Join(w.outside, "index.html"), p))
 		case "out-rel":
@@ -510,8 +524,10 @@ func (r *c17Rec) status() int {
 
 func c17NewRequest(u *url.URL, raw string) *http.Request {
 	uc := *u
+	// the negotiation headers every browser sends: a server that picks a variant of the file by them is inside the path
 	return &http.Request{Method: http.MethodGet, URL: &uc, Proto: "HTTP/1.1", ProtoMajor: 1, ProtoMinor: 1,
-		Header: http.Header{}, Host: "localhost", RequestURI: raw, RemoteAddr: "10.0.0.1:4242", Body: http.NoBody}
+		Header: http.Header{"Accept-Encoding": {"gzip, deflate, br, zstd"}, "Accept": {"*/*"}, "Accept-Language": {"en"}},
+		Host: "localhost", RequestURI: raw, RemoteAddr: "10.0.0.1:4242", Body: http.NoBody}
 }
 
 // c17Serve sends one request target the way net/http's server would hand it to
